@@ -150,6 +150,10 @@ pub struct Config {
     /// The time-out is set through `Simulation::set_timeout` after `init` instead of `SimInit::set_timeout`.
     #[serde(default)]
     pub timeout_late: bool,
+    /// Permutation (0..6) of the order of the `SimInit` builder calls `set_clock`,
+    /// `set_clock_tolerance`, `set_timeout`.
+    #[serde(default)]
+    pub builder_order: u8,
     /// Fault T: the n-th blocking `park_timeout` times out.
     #[serde(default)]
     pub timeout_at_block: Option<u32>,
@@ -199,6 +203,11 @@ pub struct NodeSpec {
     /// reply iterator (stale reply slots must not leak into the next query).
     #[serde(default)]
     pub reply_take: Option<u8>,
+    /// The model's inputs are synchronous methods (`fn`, not `async fn`): NeXosim runs them
+    /// eagerly when the message is dequeued. All handler operations of such a node satisfy
+    /// `Op::is_sync`.
+    #[serde(default)]
+    pub sync_inputs: bool,
 }
 fn yes() -> bool {
     true
@@ -294,6 +303,23 @@ pub enum Op {
     /// Keeps the step busy until the executor's timed wait has elapsed (no-op unless a step
     /// time-out is in force and has not elapsed yet): an overrunning step.
     HoldUntilTimeout,
+}
+
+impl Op {
+    /// Operations that never suspend (allowed in the handlers of a node with synchronous inputs).
+    pub fn is_sync(&self) -> bool {
+        matches!(self, Op::Sched { .. } | Op::Cancel { .. } | Op::ReadTime | Op::HoldUntilTimeout | Op::Connect { .. })
+    }
+}
+
+impl NodeSpec {
+    /// Turns the node into one with synchronous inputs (drops the handler operations that suspend).
+    pub fn make_sync(&mut self) {
+        self.sync_inputs = true;
+        for h in self.on.iter_mut() {
+            h.retain(|o| o.is_sync());
+        }
+    }
 }
 
 #[derive(Clone, Copy, Debug, Serialize, Deserialize, PartialEq)]
